@@ -80,14 +80,38 @@ TK_Sim == TK_Quick \cup TK_Bounds \cup {0, 1, 999, 1001, 5000, 5001, 61000}
 
 ---------------------------------------------------------------------------
 Bools == {FALSE, TRUE}
+(* Construction routes of the requests (Cache.tla, q.route).  "default":  *)
+(* the header bits are in the source message, DO comes from               *)
+(* set_dnssec_ok(true) (the way most callers build a request).  "all"     *)
+(* (cfg: RouteMode <- RouteModeAll): header bits preset in the source or  *)
+(* set through header_mut(); the source without / with an OPT record that *)
+(* has DO clear / set; no EDNS setter, set_dnssec_ok(true / false),       *)
+(* set_udp_payload_size.  The flags of a query are never chosen: they are *)
+(* what the route composes to (NormQ).                                    *)
+RouteMode == "default"
+RouteModeAll == "all"
+HdrOps(rd, ad, cd) == (IF rd THEN <<<<"rd", 1>>>> ELSE <<>>) \o (IF ad THEN <<<<"ad", 1>>>> ELSE <<>>)
+                      \o (IF cd THEN <<<<"cd", 1>>>> ELSE <<>>)
+Src(rd, ad, cd, o) == [rd |-> rd, ad |-> ad, cd |-> cd, opt |-> o]
+EdnsOps == {<<>>, <<<<"do", 0>>>>, <<<<"udp", 1232>>>>} \cup
+           (IF TRUE \in DoVals THEN {<<<<"do", 1>>>>} ELSE {})
+RoutesDefault ==
+  {[src |-> Src(rd, ad, cd, 0), ops |-> IF d THEN <<<<"do", 1>>>> ELSE <<>>] :
+     rd \in RdVals, ad \in AdVals, cd \in CdVals, d \in DoVals}
+RoutesAll ==
+  UNION {{[src |-> Src(rd, ad, cd, o), ops |-> e],
+          [src |-> Src(FALSE, FALSE, FALSE, o), ops |-> HdrOps(rd, ad, cd) \o e],
+          [src |-> Src(FALSE, FALSE, FALSE, o), ops |-> e \o HdrOps(rd, ad, cd)]} :
+            rd \in RdVals, ad \in AdVals, cd \in CdVals, o \in {0, 1, 2}, e \in EdnsOps}
+RouteSet == IF RouteMode = "all" THEN RoutesAll ELSE RoutesDefault
 Cacheable ==
-  {[name |-> n, cs |-> cs, qtype |-> t, qclass |-> "IN", op |-> "QUERY", nq |-> 1,
-    ad |-> ad, cd |-> cd, do |-> d, rd |-> rd] :
-      n \in Names, cs \in Cases, t \in Types, ad \in AdVals, cd \in CdVals,
-      d \in DoVals, rd \in RdVals}
+  {NormQ([name |-> n, cs |-> cs, qtype |-> t, qclass |-> "IN", op |-> "QUERY", nq |-> 1,
+          ad |-> FALSE, cd |-> FALSE, do |-> FALSE, rd |-> FALSE, route |-> r]) :
+      n \in Names, cs \in Cases, t \in Types, r \in RouteSet}
 BypassQ ==
   LET b == [name |-> CHOOSE n \in Names : TRUE, cs |-> 0, qtype |-> "A", qclass |-> "IN",
-            op |-> "QUERY", nq |-> 1, ad |-> FALSE, cd |-> FALSE, do |-> FALSE, rd |-> TRUE]
+            op |-> "QUERY", nq |-> 1, ad |-> FALSE, cd |-> FALSE, do |-> FALSE, rd |-> TRUE,
+            route |-> [src |-> Src(TRUE, FALSE, FALSE, 0), ops |-> <<>>]]
   IN {[b EXCEPT !.nq = 0, !.op = "NOTIFY"],   \* (a QUERY without question cannot be composed)
       [b EXCEPT !.nq = 2], [b EXCEPT !.op = "NOTIFY"], [b EXCEPT !.qclass = "CH"]}
 Queries == Cacheable \cup (IF WithBypass THEN BypassQ ELSE {})
@@ -183,7 +207,7 @@ Init == /\ \E c \in Configs : InitWith(c)
 
 DoQuery == \E q \in Queries :
              IF Hits(entries, q) THEN Query(q, Dummy)
-             ELSE \E up \in Up(q) : Query(q, up)
+             ELSE \E up \in Up(AskedQ(q)) : Query(q, up)   \* upstream answers what it is asked on the wire
 DoTick  == \E d \in Ticks : Tick(d)
 DoEvict == \E k \in DOMAIN entries : Evict(k)
 
@@ -207,6 +231,7 @@ P_NeverStale      == [][NeverStale(last)']_mcvars
 P_BoundsRespected == [][BoundsRespected(last)']_mcvars
 P_NoDnssecLeak    == [][NoDnssecLeak(last)']_mcvars
 P_NoPanic         == [][NoPanic(last)']_mcvars
+P_ViewIsWire      == [][ViewIsWire(last)']_mcvars
 
 (* Eviction: the property must survive any Evict(k) at any time (the     *)
 (* P_* above are checked on the transitions after it).  Note that it is   *)
